@@ -572,6 +572,54 @@ Proof.
     generalize (ctx s). generalize (kv :: d). intros l. induction l as [|x l IH]; intros c; simpl; auto.
 Qed.
 
+(** * pypyr/dsl.py :: Step.reset_context_counters *)
+Lemma dict_set_same k v d : dict_get k d = Some v -> dict_set k v d = d.
+Proof.
+  induction d as [|[k' v'] d IH]; simpl; [discriminate|].
+  destruct (val_eqb k k'); intros H.
+  - now inversion H.
+  - now rewrite IH.
+Qed.
+
+(** the loops of the step's own decorators are running (true whenever the step body runs) *)
+Definition live (sp : step) (k : counters) : Prop :=
+  (s_while sp <> None -> k_while k <> None) /\
+  (has_foreach sp = true -> k_for k <> None) /\
+  (s_retry sp <> None -> k_retry k <> None).
+
+Lemma set_ctx_set_ctx s a b : set_ctx (set_ctx s a) b = set_ctx s b.
+Proof. reflexivity. Qed.
+
+Lemma write_unless_same_sset (same : val -> val -> bool) key v d :
+  (forall a b, same a b = true -> a = b) -> py_truth v = true ->
+  write_unless_same same key v d = sset key v d.
+Proof.
+  intros Hs Hv. unfold write_unless_same.
+  destruct (same _ v) eqn:E; [|reflexivity].
+  apply Hs in E. unfold sset, sget in *.
+  destruct (dict_get (VStr key) d) as [x|] eqn:G.
+  - subst x. symmetry. now apply dict_set_same.
+  - subst v. discriminate.
+Qed.
+
+Lemma gen_reset_context_counters_is_model sp k same c s :
+  (forall a b, same a b = true -> a = b) ->      (* [a is b] implies [a == b] *)
+  py_truth (c_orig c) = true ->                   (* the method's own [assert call.original_config[1]] *)
+  live sp k ->
+  gen_reset_context_counters sp k same (ORaise (RSig (SCall c))) s = (OOk, reset_counters sp k c s).
+Proof.
+  intros Hs Hv [Lw [Lf Lr]].
+  unfold gen_reset_context_counters, reset_counters, has_foreach, opt_truth in *.
+  unfold exn_cfg_key, exn_cfg_val, exn_cof, live_while, live_for, live_retry. cbv zeta.
+  rewrite !(write_unless_same_sset same _ _ _ Hs Hv).
+  destruct (s_while sp) as [w|]; [destruct (k_while k) as [nw|]; [|exfalso; now apply Lw]|];
+    (destruct (s_foreach sp) as [fe|]; [destruct (py_truth fe);
+       [destruct (k_for k) as [vf|]; [|exfalso; now apply Lf]|]|]);
+    (destruct (s_retry sp) as [rc|]; [destruct (k_retry k) as [nr|]; [|exfalso; now apply Lr]|]);
+    cbn [ctx set_ctx]; try reflexivity;
+    destruct (k_while k); destruct (k_for k); destruct (k_retry k); reflexivity.
+Qed.
+
 (** * Closed form: the engine at fuel [S f] is the generated ladder over the engine at fuel [f] —
     no hypothesis on nested behaviours is left (the balanced-stack invariant is proved by
     induction on fuel in EngineProofs) *)
